@@ -198,7 +198,7 @@ Lemma dw_create_spec q nm :
       /\ (mk <> MHardlink -> b <= i /\ (mode_is_symlink (st_mode st) = false -> is_link f1 i = false)
                                      /\ (solid st = true -> is_link f1 i = false))
       /\ (solid st = true -> mk <> MHardlink)
-      /\ (mk = MRegular -> b <= i)).
+      /\ (mk = MRegular -> b <= i /\ solid st = true)).
 Proof.
   intros Hq Hnm Habs. cbv zeta. unfold dw_create.
   assert (HT : forall dd, rwalk f D pre = Some dd -> is_dir f dd = true -> Tn nm dd nm) by (intros; repeat split; auto).
@@ -238,6 +238,7 @@ Proof.
     destruct (P Hok) as (i & _ & [(_ & dd & nd & A1 & A2 & A3 & _)|(_ & Cr)]).
     + rewrite (Habs dd i A1 A2) in A3. discriminate.
     + destruct (Hfresh g _ Cr) as (dd & i' & B1 & B2 & B3 & B4 & B5).
+      assert (Hsolid : solid st = true) by (unfold solid; rewrite Edir, Edev, Esym, Eln; reflexivity).
       exists dd, i'. repeat split; auto; try discriminate; intros; apply B5; simpl; discriminate.
   - assert (Hhb : hardlink_branch st = true) by (unfold hardlink_branch; rewrite Edir, Edev, Esym, Eln; reflexivity).
     destruct (Hlink Hhb) as (pre1 & n1 & Hrel1 & Hs1).
@@ -258,7 +259,7 @@ Definition post (r : fs * dwres) : Prop :=
   forall a nd, snd r = DwOk a nd ->
     tmpfree (fst r)
     /\ (solid st = true -> safe (fst r) D (pre ++ [bn]))
-    /\ (a = true -> exists dd i, rwalk f D pre = Some dd /\ blookup bn (ents (fst r) dd) = Some i /\ b <= i).
+    /\ (a = true -> solid st = true /\ exists dd i, rwalk f D pre = Some dd /\ blookup bn (ents (fst r) dd) = Some i /\ b <= i).
 
 Lemma post_err g : step Tp b f g -> post (g, DwErr).
 Proof. intros S. split; auto. intros a nd H. discriminate. Qed.
@@ -373,7 +374,8 @@ Proof.
     + apply Hl3. exact Hs.
     + destruct (dentry_reach D f1 pre dd bn i) as [_ Ri]; auto; [rewrite (mid_walk f1 M1); auto|].
       apply (reach_lt D f1 i (mid_wf f1 M1) Ri).
-  - intros Ha. exists dd, i. repeat split; auto. apply Hreg. destruct mk; try discriminate; reflexivity.
+  - intros Ha. assert (Emk : mk = MRegular) by (destruct mk; try discriminate; reflexivity).
+    destruct (Hreg Emk) as [Hbi Hso]. split; auto. exists dd, i. repeat split; auto.
 Qed.
 
 
@@ -481,7 +483,8 @@ Proof.
       rewrite (mid_walk f4 M4), Hw in Hw'. inversion Hw'; subst dd'. rewrite B2 in Hb'. inversion Hb'; subst i'.
       destruct (Hmk (Hsol Hs)) as (_ & _ & Hl3).
       rewrite (islink_next f3 f4 (T2 dd tmp bn) dd tmp i M3 S4 Hw Hbl3), Hl13. apply Hl3. exact Hs.
-    + intros Ha. exists dd, i. repeat split; auto. apply Hreg. destruct mk; try discriminate; reflexivity.
+    + intros Ha. assert (Emk : mk = MRegular) by (destruct mk; try discriminate; reflexivity).
+      destruct (Hreg Emk) as [Hbi Hso]. split; auto. exists dd, i. repeat split; auto.
 Qed.
 
 
@@ -490,11 +493,11 @@ Definition post2 (kind : N) (r : fs * dwres) : Prop :=
   forall a nd, snd r = DwOk a nd ->
     tmpfree (fst r)
     /\ (kind <> 2 -> solid st = true -> safe (fst r) D (pre ++ [bn]))
-    /\ (a = true -> exists dd i, rwalk f D pre = Some dd /\ blookup bn (ents (fst r) dd) = Some i /\ b <= i).
+    /\ (a = true -> solid st = true /\ exists dd i, rwalk f D pre = Some dd /\ blookup bn (ents (fst r) dd) = Some i /\ b <= i).
 
 Lemma post_post2 kind r : post r -> post2 kind r.
 Proof.
-  intros [S P]. split; auto. intros a nd H. destruct (P a nd H) as (A & B & C). repeat split; auto.
+  intros [S P]. split; auto. intros a nd H. destruct (P a nd H) as (A & B & C). split; [exact A|]. split; [intros _; exact B|exact C].
 Qed.
 
 Lemma post2_err kind : post2 kind (f, DwErr).
@@ -607,7 +610,7 @@ Theorem dw_handle_contained c f tmp kind p st :
   /\ (forall a nd, snd r = DwOk a nd ->
         (forall dd, rwalk f D pre = Some dd -> blookup tmp (ents g dd) = None)
         /\ (kind <> 2 -> solid st = true -> safe g D (comps p))
-        /\ (a = true -> exists dd i, rwalk f D pre = Some dd /\ blookup bn (ents g dd) = Some i /\ f_next f <= i)).
+        /\ (a = true -> solid st = true /\ exists dd i, rwalk f D pre = Some dd /\ blookup bn (ents g dd) = Some i /\ f_next f <= i)).
 Proof.
   intros W Hc Hok Htmp Hnin pre bn Hsafe Hfree Hlink r g.
   pose proof (split_comps p Hok) as Ecs. fold pre bn in Ecs.
